@@ -1102,11 +1102,23 @@ func NewRegular(dir string, validity *uint64, keyids [][2]string, conn net.Conn)
 }
 
 func NewRegularLabel(dir string, validity *uint64, keyids [][2]string, label string, conn net.Conn) (gensign.Handler, error) {
-	var gc config.GensignConfig
-	if err := json.Unmarshal([]byte(HandlerConfigJSONLabel(dir, validity, keyids, label)), &gc); err != nil {
+	// through the application's own loader (config.NewGensignConfig: the file, its decoding, the defaults it fills in)
+	f, err := os.CreateTemp("", "verif-gensign-conf-*.json")
+	if err != nil {
 		return nil, err
 	}
-	return regular.NewHandler(&gc, conn)
+	path := f.Name()
+	defer os.Remove(path)
+	if _, err := f.WriteString(HandlerConfigJSONLabel(dir, validity, keyids, label)); err != nil {
+		f.Close()
+		return nil, err
+	}
+	f.Close()
+	gc, err := config.NewGensignConfig(path)
+	if err != nil {
+		return nil, err
+	}
+	return regular.NewHandler(gc, conn)
 }
 
 func (s *Session) gDir(entries []DirEntry) string {
